@@ -143,6 +143,8 @@ def run(ctx):
                 except Exception as e:
                     ctx.violation("interp/cspline/not-a-knot/n=3" if (bc == "not-a-knot" and len(gp["x"]) == 3) else "interp/cspline/extrap-%s/raise" % extrap, "cspline(%s) x=%s q=%s extrap=%s raised %s: %s" % (bc, gp["x"], q, extrap, type(e).__name__, str(e)[:100]),
                                   {"g": gp, "q": str(q)})
+    from vlib import resulthistory
+    resulthistory.replay(ctx, ["interp1d:cspline", "interp1d:linear", "squad:simpson", "squad:cspline"], "interp")
     # ---- the cubic spline itself
     rng = np.random.RandomState(ctx.seed)
     sizes = [3, 4, 5, 8, 15] + ([30, 60] if thorough else [])
